@@ -12,6 +12,9 @@ export const TAG_FORMS = [
   { form: 'pattern', name: '_widget' },
   { form: 'importDefault' }, { form: 'importNamed' }, { form: 'constAlias' },
   { form: 'member1' }, { form: 'member2' },
+  // user bindings named like identifiers the transform generates, and names that merely start with Fragment
+  { form: 'memberGenNameRoot' }, { form: 'importDefaultGenName' }, { form: 'importDefaultFragLike' }, { form: 'importDefaultUnderscoreFrag' },
+  { form: 'unboundPascal', name: 'Fragment1', fragLike: true },
   { form: 'unboundPascal', name: 'Foo' }, { form: 'unboundLower', name: 'foo' }, { form: 'unboundHyphen', name: 'foo-bar' },
   { form: 'Fragment' }, { form: 'KeepAlive' }, { form: 'Teleport' }, { form: 'Transition' },
 ];
@@ -32,8 +35,13 @@ export function makeTag(b, tf) {
     }
     case 'member1': { b.importNs('probe:ns', 'ns0'); return { kind: 'member', src: 'ns0.Comp', i: b.leaf('ns0.Comp') }; }
     case 'member2': { b.importNs('probe:ns', 'ns0'); return { kind: 'member', src: 'ns0.inner.Deep', i: b.leaf('ns0.inner.Deep') }; }
+    case 'memberGenNameRoot': { b.importNs('probe:ns', '_createVNode'); return { kind: 'member', src: '_createVNode.Comp', i: b.leaf('_createVNode.Comp') }; }
+    case 'importDefaultGenName': { b.importDefault('probe:C0', '_createVNode'); return { kind: 'bound', src: '_createVNode', i: b.leaf('_createVNode') }; }
+    // `Fragment<digits>` / `_Fragment<digits>` are ordinary bindings for the vnode type; like Fragment they take children, not slots
+    case 'importDefaultFragLike': { b.importDefault('probe:C0', 'Fragment2'); return { kind: 'bound', src: 'Fragment2', i: b.leaf('Fragment2'), fragLike: true }; }
+    case 'importDefaultUnderscoreFrag': { b.importDefault('probe:C0', '_Fragment'); return { kind: 'bound', src: '_Fragment', i: b.leaf('_Fragment'), fragLike: true }; }
     case 'unboundPascal': case 'unboundLower': case 'unboundHyphen':
-      return { kind: 'unbound', name: tf.name, src: tf.name };
+      return { kind: 'unbound', name: tf.name, src: tf.name, ...(tf.fragLike ? { fragLike: true } : {}) };
     case 'Fragment': return { kind: 'Fragment', src: 'Fragment' };
     case 'KeepAlive': case 'Teleport': case 'Transition': {
       b.importNamed('vue', tf.form);
